@@ -93,6 +93,18 @@ def run(ctx):
                         units.append(c)
                         units.extend(c.nested.values())
         uviews = [ctx.view(u) for u in units]
+        # arguments the method hands to its private helpers: a record field that is a helper parameter is read at the call
+        bound_args = {}
+        for n in ast.walk(v.fi.node):
+            if isinstance(n, ast.Call) and isinstance(n.func, ast.Attribute) and isinstance(n.func.value, ast.Name) and n.func.value.id == "self":
+                for c in ctx.callees(v.fi, n):
+                    if c in units[1:]:
+                        pn = [a.arg for a in c.params][1:]
+                        m_ = {pn[i]: a for i, a in enumerate(n.args) if i < len(pn) and not isinstance(a, ast.Starred)}
+                        m_.update({kw.arg: kw.value for kw in n.keywords if kw.arg})
+                        prev = bound_args.get(c.qualname)
+                        # several calls with different arguments: only what they agree on is known
+                        bound_args[c.qualname] = m_ if prev is None else {k_: v_ for k_, v_ in m_.items() if k_ in prev and norm(prev[k_]) == norm(v_)}
         ctx.add_sites(res, ctx.sites(rules=("K-KEY",), funcs=[u.short for u in units[1:]]))
         # ---- S-HASHSORT: no iteration over a table (or anything else unordered) that is not through sorted(...)
         with res.guard(f"S-HASHSORT of {d}"):
@@ -146,12 +158,23 @@ def run(ctx):
             # the top-level record: the dict the method itself returns (found by the returned expression, not by its keys)
             top_view = uviews[0]
             returned = []
-            for r_ in walk_no_nested(top_view.fi.node):
-                if isinstance(r_, ast.Return) and r_.value is not None:
-                    rv = r_.value
-                    if isinstance(rv, ast.Name):
-                        rv = top_view.resolve(rv)
-                    returned.append(rv)
+            ret_views = [top_view]
+            seen_rv = set()
+            while ret_views:
+                rview = ret_views.pop()
+                if rview.fi.qualname in seen_rv:
+                    continue
+                seen_rv.add(rview.fi.qualname)
+                for r_ in walk_no_nested(rview.fi.node):
+                    if isinstance(r_, ast.Return) and r_.value is not None:
+                        rv = r_.value
+                        if isinstance(rv, ast.Name):
+                            rv = rview.resolve(rv)
+                        returned.append(rv)
+                        # `return self._assemble(...)`: the record is what the private helper returns
+                        if isinstance(rv, ast.Call) and isinstance(rv.func, ast.Attribute) and isinstance(rv.func.value, ast.Name) and rv.func.value.id == "self":
+                            for c in ctx.callees(rview.fi, rv):
+                                ret_views += [uv for uv in uviews if uv.fi is c]
             # (a record assembled from several displays: `{...} | {...}`, `{**a, **b}`)
             top_nodes = []
             for rv in returned:
@@ -172,6 +195,9 @@ def run(ctx):
                 raise AnalysisError(f"{f}: top-level dict of the pre-image not found")
             tv, tnode, rd = tops[0]
             rd = dict(rd)
+            if tv.fi.qualname in bound_args:
+                ba = bound_args[tv.fi.qualname]
+                rd = {k_: (ba[v_.id] if isinstance(v_, ast.Name) and v_.id in ba and v_.id in {a.arg for a in tv.fi.params} else v_) for k_, v_ in rd.items()}
             for _, tn2, rd2 in tops[1:]:
                 for k2, v2 in rd2.items():
                     rd.setdefault(k2, v2)
@@ -186,7 +212,9 @@ def run(ctx):
             for key in ("type", "weighted", "hypergraph_metadata", "edges", "nodes"):
                 res.check(key in rd, "S-HASHFIELDS", f, f'"{key}"', "top-level", f"`{key}` is missing from the hash pre-image: two hypergraphs differing only in it get the same hash", loc(tv.fi, tnode))
             if "type" in rd:
-                res.check(isinstance(rd["type"], ast.Constant) and rd["type"].value == cls, "S-HASHFIELDS", f, norm(rd["type"]), "type-tag", "the type tag is not the class name", loc(tv.fi, tnode))
+                tt = rd["type"]
+                dyn = norm(tt) in ("type(self).__name__", "self.__class__.__name__")
+                res.add("S-HASHFIELDS", f, norm(tt), "type-tag", "ok" if dyn or (isinstance(tt, ast.Constant) and tt.value == cls) else ("violation" if isinstance(tt, ast.Constant) else "unknown"), "" if dyn else "the type tag is not the class name", loc(tv.fi, tnode))
             if "weighted" in rd:
                 e = tv.inline(rd["weighted"])
                 good = is_self_attr(e, "_weighted") or norm(e) == "self.is_weighted()"
